@@ -43,6 +43,9 @@ type thread struct {
 	reserved bool
 	// own steps taken inside Wait while no Add/Inc/Dec was in flight
 	waitRest int
+	// the Wait call in flight has not performed a visible operation yet / lzc just before its first one
+	waitFresh bool
+	waitLst   int
 }
 
 type gImpl struct {
@@ -65,6 +68,10 @@ type gImpl struct {
 	variant     string
 	roChans     []<-chan struct{}
 	reservedSum int
+	// client-side bookkeeping for the discipline of the quantifier ("every decrement issued after
+	// the matching increment returned"), independent of how the implementation stores its count:
+	retPos int // sum of the positive deltas whose call has returned
+	admNeg int // sum of |delta| of the decrements admitted so far (in flight or returned)
 }
 
 func (g *gImpl) Reset() {}
@@ -187,6 +194,7 @@ func (g *gImpl) startCase(ws []string) string {
 	g.count, g.wchan, g.lock, g.zc, g.lb, g.lzc, g.sumRet, g.inAdd, g.mon = 0, 0, "-", 1, 0, 1, 0, 0, "ok"
 	g.mon2 = ""
 	g.reservedSum = 0
+	g.retPos, g.admNeg = 0, 0
 	g.threads = nil
 	g.s = sched.New()
 	sentinelSeen := false
@@ -236,15 +244,29 @@ func (g *gImpl) runThread(t *thread) {
 			}
 			if c.d > 0 {
 				g.lb += c.d
+				g.retPos += c.d
+			}
+			if t.reserved && !t.applied {
+				// an implementation without a separate counter update (e.g. count and channel in one
+				// snapshot behind a pointer): the reservation ends with the call
+				g.reservedSum -= -t.curDelta
+				t.reserved = false
 			}
 			g.inAdd--
 			g.sumRet += c.d
 			t.rets = append(t.rets, v)
 		case "w":
 			t.status = "wait"
-			st, lst := g.zc, g.lzc
+			// The interval of the property starts with the Wait call. A goroutine parked before the
+			// first visible operation of Wait has done nothing another goroutine could notice, so the
+			// same interleaving is also an execution in which it calls Wait only now: the monitor's
+			// interval starts at the first own step of the call (the latest start this interleaving
+			// allows). `start` (compared in lock-step with the model's zeroSeen) stays at the call.
+			st := g.zc
+			t.waitFresh, t.waitLst = true, g.lzc
 			ch := g.wg.Wait()
-			t.recs = append(t.recs, rec{ch: chanPtr(ch), start: st, lstart: lst})
+			t.waitFresh = false
+			t.recs = append(t.recs, rec{ch: chanPtr(ch), start: st, lstart: t.waitLst})
 			// remember the channel object for closed-ness probes
 			if _, ok := g.chanID[chanPtr(ch)]; !ok {
 				g.chanID[chanPtr(ch)] = -1 // a channel never seen in a pointer update
@@ -353,14 +375,23 @@ func (g *gImpl) state() string {
 
 // gated: stepping thread tid now could drive the count negative. A decrement issued by one
 // goroutine may rely on an increment of another one (cross-goroutine balance); the schedule
-// generators only let such a decrement proceed once the counter (minus what other admitted
-// decrements have reserved) covers it, so that the callers' obligation "never negative" holds.
+// generators only let such a decrement proceed once it is covered, so that the callers'
+// obligation "never negative" holds. Covered means either of
+//   - the increments that have RETURNED minus the decrements admitted so far cover it (the
+//     discipline of the quantifier; known to the client whatever the implementation looks like), or
+//   - the implementation's counter object (minus what other admitted decrements have reserved)
+//     covers it (the increment's counter update has been performed although the call has not
+//     returned yet; only meaningful for an implementation that keeps a counter object: one that
+//     does not would otherwise never have a decrement admitted).
 func (g *gImpl) gated(tid int) bool {
 	if tid < 0 || tid >= len(g.threads) {
 		return false
 	}
 	t := g.threads[tid]
 	if t.status != "add" || t.curDelta >= 0 || t.applied || t.reserved {
+		return false
+	}
+	if g.retPos-g.admNeg+t.curDelta >= 0 {
 		return false
 	}
 	return g.count-int64(g.reservedSum)+int64(t.curDelta) < 0
@@ -373,8 +404,12 @@ func (g *gImpl) step(tid int) string {
 	if t := g.threads[tid]; t.status == "add" && t.curDelta < 0 && !t.applied && !t.reserved && !g.s.Done(tid) {
 		t.reserved = true
 		g.reservedSum += -t.curDelta
+		g.admNeg += -t.curDelta
 	}
 	restBefore := g.inAdd == 0
+	if t := g.threads[tid]; t.status == "wait" && t.waitFresh {
+		t.waitFresh, t.waitLst = false, g.lzc
+	}
 	op := g.s.Step(tid)
 	// C02, non-blocking clause exactly as worded: a goroutine inside Wait while no Add/Inc/Dec is in
 	// flight must return within a few of its own steps (the model needs at most two loads per
@@ -404,7 +439,10 @@ func (g *gImpl) step(tid int) string {
 	if op != nil {
 		label = op.Kind
 		if label == "panic" {
-			return "panic " + fmt.Sprint(op.Res)
+			// a call of an in-domain client panicked inside the package (e.g. close of a closed
+			// channel): that call never returns, so the state C02 speaks about ("all Add/Inc/Dec
+			// calls have returned", "Wait returns") is never reached; reported under C02
+			return "panic " + strings.Join(strings.Fields(fmt.Sprint(op.Res)), "-") + " mon=C02:call-panicked"
 		}
 	}
 	g.observe(op, tid)
@@ -475,16 +513,22 @@ func (g *gImpl) deadline() string {
 	}
 	// Only run the real-time calls when a scheduled Wait() returns: a Wait that spins (an
 	// inconsistent state at rest) would leave a goroutine spinning through the shims forever.
-	if pr := g.probe(); strings.Contains(pr, "wait=spin") {
+	pr := g.probe()
+	if strings.Contains(pr, "wait=spin") {
 		return "hang"
 	}
+	// The goroutine below runs OUTSIDE the scheduler. It must have finished before the next
+	// scheduled step: a goroutine that is still inside the package later (say, woken by a long
+	// timer) would enter the shims concurrently with a scheduled thread and be taken for it.
+	// So the deadline is chosen from what a scheduled Wait() just returned at this point of rest:
+	// a closed channel - the calls return at once, the deadline is generous (a short one could
+	// fire first on a loaded machine and make select pick it); an open channel - the deadline is
+	// what the calls wait for, so it is short.
+	freshClosed := strings.Contains(pr, ":t steps=")
 	res := make(chan string, 1)
 	go func() {
-		// with count zero the call must return at once, so the deadline is generous (a short one
-		// could fire first on a loaded machine and make select pick it); with a positive count the
-		// deadline is what we wait for, so it is short
 		d := 2 * time.Millisecond
-		if g.sumRet == 0 {
+		if freshClosed {
 			d = 30 * time.Second
 		}
 		e1 := g.wg.WaitTimeout(d)
